@@ -382,7 +382,7 @@ def run(facts, rep, parts=('Q1', 'Q2', 'Q3', 'Q4', 'Q5', 'Q6')):
             n_inst += 1
             if rets == {'sub(arg1, mul(arg2, div(arg1, arg2)))'}:
                 rep.ok('E20.Q5-remainder', inst, 'a - b * (a / b)')
-            elif rets and all(re.match(r'^(sub|mul|div|add|neg|arg[12]|[(), ])*$', r_) for r_ in rets):
+            elif rets and all(re.match(r'^(sub|mul|div|add|neg|clone|arg[12]|[(), ])*$', r_) for r_ in rets):
                 rep.violation('E20.Q5-remainder', inst, 'rem returns %s' % sorted(rets), where=b.where())
             else:
                 raise Unrec('rem returns %s' % sorted(rets)[:2])
